@@ -67,9 +67,10 @@ def core(ctx):
 
 @st.composite
 def _bench(draw, ctx):
-    n_in = draw(st.integers(1, 4))
     n_g = draw(st.integers(1, 8))
     n_ff = draw(st.sampled_from([0, 0, 1, 2, 3]))
+    # an autonomous sequential text (counter, toggle flop) has no INPUT line at all
+    n_in = draw(st.integers(1, 4)) if (n_ff == 0 or draw(st.integers(0, 3))) else 0
     names = draw(st.lists(st.sampled_from(NAMES), min_size=n_in + n_g + n_ff, max_size=n_in + n_g + n_ff, unique=True))
     inputs = names[:n_in]
     ffq = names[n_in:n_in + n_ff]
@@ -95,7 +96,7 @@ def _bench(draw, ctx):
     for d in defs:
         used.update(d[3] if d[0] == "gate" else [d[3]])
     outs = [n for n in gates + ffq if n not in used or draw(st.integers(0, 3)) == 0]
-    if draw(st.integers(0, 5)) == 0:
+    if inputs and draw(st.integers(0, 5)) == 0:
         outs.append(inputs[0])
     if not outs:
         outs = [gates[-1]]
